@@ -52,3 +52,6 @@ SPEC['rule'] += (' Added after the seeded-change rounds: ' +
     'Raw requests that announce a huge Content-Length (up to 2^62) with a short or no body; a client naming an unknown bridge while polls of the scripted flows wait (those polls must still be answered); two overlapping polls under one session id; a herd of 192 polls; one scripted flow is forced in-process through the real handlers (deterministic), the same flows run against the binary.')
 
 SPEC['thorough_passes'] = 6  # the thorough tier runs the whole harness under this many consecutive seeds
+
+SPEC['rule'] += (' ' +
+    'Added after round five: the in-process flow runs on a broker with geoip loaded after a metrics roll-over, with idle polls of every NAT type beside it; the broker binary is also started with the distinct-IP journal at interval 0 / 1 ns and with relay patterns configured.')
